@@ -11,10 +11,11 @@ package main
 //   (2) every range over X or a sub-slice of X in such a block calls os.Remove on the element's file name.
 
 import (
-	"go/token"
 	"fmt"
 	"go/ast"
+	"go/token"
 	"go/types"
+	"golang.org/x/tools/go/cfg"
 )
 
 func init() {
@@ -383,6 +384,11 @@ func fallsOffEndAvoiding(fl *Flow, start Pt, pass func(ast.Node) bool) bool {
 			continue
 		}
 		if len(pt.B.Succs) == 0 {
+			// go/cfg ends the chain of a select without default in a block without successors: the select blocks
+			// there until a case is ready, control does not leave the function
+			if pt.B.Kind == cfg.KindSelectAfterCase {
+				continue
+			}
 			return true
 		}
 		for si, s := range pt.B.Succs {
